@@ -290,3 +290,50 @@ package interpreter
 //@   callpre (*interpreter.Environment).Define fresh(arg0)
 //@   callpre (*interpreter.Environment).DefineWithSource fresh(arg0)
 //@   callpre (*interpreter.Interpreter).executeStatements fresh(arg2)
+
+// ---- declared data contracts (C07): what reaches the route body as `input` meets the declared type's required fields
+//@ spec func reqOK(obj map[string]interface{}, td ast.TypeDef) bool = forall(k, 0, len(td.Fields), td.Fields[k].Required && td.Fields[k].Default == nil ==> has(obj, td.Fields[k].Name) && obj[td.Fields[k].Name] != nil)
+//@ spec func declIn(i *Interpreter, route *Route) bool = typeis(route.InputType, NamedType) && has(i.typeDefs, route.InputType.(NamedType).Name)
+//@ spec func declTD(i *Interpreter, route *Route) TypeDef = i.typeDefs[route.InputType.(NamedType).Name]
+// checkOK(v, t): value v is acceptable for declared type t - the meaning of CheckType (trusted, abstract: the recursive
+// conformance relation itself is not under contract)
+//@ spec func checkOK(v interface{}, t ast.Type) bool
+//@ func (*TypeChecker).CheckType
+//@   trusted
+//@   modifies nothing
+//@   ensures result == nil ==> checkOK(value, expectedType)
+//@ func (*TypeChecker).ValidateObjectAgainstTypeDef
+//@   modifies nothing
+//@   loop 1 invariant 0 <= rangeidx && forall(k, 0, rangeidx, typeDef.Fields[k].Required && typeDef.Fields[k].Default == nil ==> has(obj, typeDef.Fields[k].Name) && obj[typeDef.Fields[k].Name] != nil)
+//@   ensures result == nil ==> reqOK(obj, typeDef)
+// default expressions are evaluated by ApplyTypeDefaults; the summary assumes they do not touch the interpreter's tables
+//@ func (*Interpreter).ApplyTypeDefaults
+//@   trusted
+//@   modifies nothing
+//@   ensures err == nil ==> result != nil
+//@ func (*Interpreter).ExecuteRoute
+//@   callpre (*interpreter.Environment).Define arg1 == "input" && declIn(i, route) ==> (typeis(arg2, map[string]interface{}) && arg2.(map[string]interface{}) != nil && reqOK(arg2.(map[string]interface{}), declTD(i, route))) || reqOK(nil, declTD(i, route))
+
+// typed query parameters (C07): a required parameter without default must be present; a declared scalar parameter that is
+// present reaches the route as a value of its declared type, or the request fails
+//@ func parseBool
+//@   modifies nothing
+//@ func convertValue
+//@   modifies nothing
+//@   ensures err == nil && typeis(targetType, IntType) ==> typeis(result, int64)
+//@   ensures err == nil && typeis(targetType, FloatType) ==> typeis(result, float64)
+//@   ensures err == nil && typeis(targetType, BoolType) ==> typeis(result, bool)
+//@   ensures err == nil && typeis(targetType, StringType) ==> typeis(result, string) && result.(string) == value
+//@ func convertToArray
+//@   trusted
+//@   modifies nothing
+//@ func autoConvert
+//@   trusted
+//@   modifies nothing
+//@ func ProcessQueryParams
+//@   modifies nothing
+//@   loop 2 invariant 0 <= rangeidx && forall(k, 0, rangeidx, declarations[k].Required && declarations[k].Default == nil ==> has(rawParams, declarations[k].Name) && len(rawParams[declarations[k].Name]) > 0)
+//@   ensures err == nil ==> forall(k, 0, len(declarations), declarations[k].Required && declarations[k].Default == nil ==> has(rawParams, declarations[k].Name) && len(rawParams[declarations[k].Name]) > 0)
+// a declared return type: the response is built from the route's value only after CheckType accepted it
+//@ func (*Interpreter).ExecuteRoute
+//@   assertat "switch r := result.(type) {" route.ReturnType != nil ==> checkOK(result, route.ReturnType)
